@@ -56,6 +56,15 @@ def dbStep (E : Impl.Env) (db : Impl.Db) (op : String) : Impl.Db × String :=
       | .error _ => l) (Impl.newList (unhex t))
     let db' := db.appendList l
     (db', "ok " ++ hex (Impl.encDb db'))
+  | ["LA", idx, sig] =>
+    -- list-level AppendBytes on the idx-th list of the database (its error is reported, nothing else changes)
+    let i := natArg idx
+    (match db[i]?, parseSigs sig with
+     | some l, [s] =>
+       (match l.appendBytes E s.owner s.data with
+        | .ok l' => let db' := db.set i l'; (db', "ok " ++ hex (Impl.encDb db'))
+        | .error _ => (db, "err " ++ hex (Impl.encDb db)))
+     | _, _ => (db, "err " ++ hex (Impl.encDb db)))
   | ["E"] =>
     match Impl.readDb (Impl.encDb db) with
     | some db' => (db', "ok " ++ hex (Impl.encDb db'))
